@@ -3,6 +3,7 @@ package main
 import (
 	"fmt"
 	"go/token"
+	"go/types"
 	"strings"
 
 	"golang.org/x/tools/go/ssa"
@@ -317,6 +318,7 @@ func runC13(c *Check, a *Analysis) {
 			c.Ob("R-NORMALISE", sc.key(s.Fn, "Transport."+f+"="), p.InstrPos(st), ok, ifs(!ok, "limit field written outside the once-initialiser or without the `< 1` / clamp guard"))
 		}
 	}
+	ruleDefaults(c, a, "R-NORMALISE", "MaxConnsPerHost", "MaxIdleConnsPerHost")
 	c.Ob("R-NORMALISE", "once#idle limit clamped to connection limit", token.NoPos, clampSeen, ifs(!clampSeen, "MaxIdleConnsPerHost is never clamped to MaxConnsPerHost: the idle queue alone can exceed the connection limit"))
 
 	// ---- dead ⇒ closed
@@ -532,6 +534,7 @@ func runC14(c *Check, a *Analysis) {
 	}
 
 	// ---- R-ERRDIAL
+	ruleDialResult(c, a, "R-DIAL-RESULT")
 	c.Rule("R-ERRDIAL", "every non-nil error returned by newPersistConn, and by getConn for an empty address, is the ErrDial value (getConn otherwise forwards newPersistConn's error)", 3)
 	eachInstr(np, func(in ssa.Instruction) {
 		r, ok := in.(*ssa.Return)
@@ -627,7 +630,9 @@ func runC15(c *Check, a *Analysis) {
 		}
 	}
 
-	c.Rule("R-CLOSE-ALL", "Transport.Close (past its once/running guards) ranges over conns and idleConns closing every element, replaces both maps and closes t.done on every path; run exits on <-t.done", 6)
+	ruleDefaults(c, a, "R-RETIRE-TIMING", "KeepAlive", "IdleConnTimeout")
+	c.Rule("R-CLOSE-ALL", "Transport.Close (past its once/running guards) ranges over conns and idleConns closing every element, replaces both maps and closes t.done on every path; run exits on <-t.done; the counted loops over pool containers start at element 0 and the drain of an idle queue is not skipped when it is non-empty", 6)
+	ruleDrainLoops(c, a, "R-CLOSE-ALL")
 	cl := p.Fn("(*Transport).Close")
 	if cl == nil {
 		c.Undecided("R-CLOSE-ALL", "(*Transport).Close not found")
@@ -1113,5 +1118,244 @@ func ruleRetireTiming(c *Check, a *Analysis, rule string) {
 	for _, d := range callsIn(run, "(*connQueue).Dequeue") {
 		g, _ := p.guardedBy(d.(ssa.Instruction), matchOlderThan(p, "IdleConnTimeout"))
 		c.Ob(rule, sc.key(run, "close parked only after IdleConnTimeout"), p.InstrPos(d), g, ifs(!g, "a parked connection is closed without having been idle for IdleConnTimeout"))
+	}
+}
+
+// ruleDefaults: inside getConn's once-initialiser a non-positive option receives the
+// package default of the same name (and only then); the initialiser marks the transport running.
+func ruleDefaults(c *Check, a *Analysis, rule string, fields ...string) {
+	p := c.P
+	gc := p.Fn("(*Transport).getConn")
+	if gc == nil {
+		c.Undecided(rule, "getConn not found")
+		return
+	}
+	var init *ssa.Function
+	for _, f := range withClosures(gc) {
+		if f != gc && len(p.fieldStoresIn(f, "Transport", "running")) > 0 {
+			init = f
+		}
+	}
+	if init == nil {
+		c.Ob(rule, "once#marks the transport running", gc.Pos(), false, "the once-initialiser never sets Transport.running: Transport.Close takes its not-running early exit and closes nothing")
+		return
+	}
+	for _, f := range fields {
+		ok := false
+		for _, st := range p.fieldStoresIn(init, "Transport", f) {
+			g, isG := p.canon(st.Val).(*ssa.UnOp)
+			fromDefault := false
+			if isG {
+				if gl, isGl := g.X.(*ssa.Global); isGl && gl.Name() == f {
+					fromDefault = true
+				}
+			}
+			if k, isK := p.canon(st.Val).(*ssa.Const); isK && k.Value != nil {
+				if obj := p.Root.Types.Scope().Lookup(f); obj != nil {
+					if cst, isC := obj.(*types.Const); isC && cst.Val().ExactString() == k.Value.ExactString() {
+						fromDefault = true
+					}
+				}
+			}
+			nonPos, _ := p.guardedBy(st, func(cond ssa.Value) (bool, bool) {
+				b, ok := cond.(*ssa.BinOp)
+				if !ok || !isLoadOf(p.canon(b.X), "Transport", f) {
+					return false, false
+				}
+				k, isK := constInt(b.Y)
+				if isK && ((b.Op == token.LSS && k == 1) || (b.Op == token.LEQ && k == 0)) {
+					return true, true
+				}
+				if isK && ((b.Op == token.GEQ && k == 1) || (b.Op == token.GTR && k == 0)) {
+					return true, false
+				}
+				return false, false
+			})
+			if fromDefault && nonPos {
+				ok = true
+			}
+		}
+		c.Ob(rule, "once#Transport."+f+" defaults when non-positive", init.Pos(), ok, ifs(!ok, "the once-initialiser does not replace a non-positive Transport."+f+" by the package default "+f+" (exactly under that test)"))
+	}
+	// running = true on every path of the initialiser
+	_, tr, okp := p.mustPass(init, nil, func(x ssa.Instruction) bool {
+		st, ok := x.(*ssa.Store)
+		if !ok {
+			return false
+		}
+		fr, _, okf := fieldOfAddr(st.Addr)
+		k, isK := st.Val.(*ssa.Const)
+		return okf && fr.Struct == "Transport" && fr.Field == "running" && isK && k.Value != nil && k.Value.ExactString() == "true"
+	})
+	c.Ob(rule, "once#marks the transport running", init.Pos(), okp, ifs(!okp, "a path through the once-initialiser leaves Transport.running false ("+p.lineTrail(tr)+"): Transport.Close takes its not-running early exit and closes nothing"))
+}
+
+// matchErrOf recognises a nil test of the error result of the given call (directly, or
+// through the named-result cell the tuple was stored into in the same block).
+func matchErrOf(p *Prog, call *ssa.Call) condMatch {
+	return func(cond ssa.Value) (bool, bool) {
+		b, ok := cond.(*ssa.BinOp)
+		if !ok || (b.Op != token.EQL && b.Op != token.NEQ) {
+			return false, false
+		}
+		x, y := b.X, b.Y
+		if nilConst(x) {
+			x, y = y, x
+		}
+		if !nilConst(y) {
+			return false, false
+		}
+		isErrOf := func(v ssa.Value) bool {
+			e, ok := v.(*ssa.Extract)
+			return ok && e.Tuple == ssa.Value(call) && e.Index == 1
+		}
+		if isErrOf(x) || isErrOf(p.canon(x)) {
+			return true, b.Op == token.EQL
+		}
+		if u, ok := x.(*ssa.UnOp); ok && u.Op == token.MUL {
+			if al, ok := u.X.(*ssa.Alloc); ok {
+				// last store to the cell before the load, same block
+				var last *ssa.Store
+				for _, in := range u.Block().Instrs {
+					if in == ssa.Instruction(u) {
+						break
+					}
+					if st, ok := in.(*ssa.Store); ok && st.Addr == ssa.Value(al) {
+						last = st
+					}
+				}
+				if last != nil && isErrOf(last.Val) {
+					return true, b.Op == token.EQL
+				}
+			}
+		}
+		return false, false
+	}
+}
+
+// ruleDialResult (C14): getConn returns a failed dial as (nil, ErrDial) and a successful
+// one as the connection.
+func ruleDialResult(c *Check, a *Analysis, rule string) {
+	p := c.P
+	c.Rule(rule, "after every dial in getConn the error edge returns without handing out a connection, and the success edge never discards the connection for a nil result", 6)
+	gc := p.Fn("(*Transport).getConn")
+	if gc == nil {
+		c.Undecided(rule, "getConn not found")
+		return
+	}
+	isNilPc := func(x ssa.Instruction) bool {
+		if st, ok := x.(*ssa.Store); ok {
+			if _, isAl := st.Addr.(*ssa.Alloc); isAl && nilConst(st.Val) && strings.HasSuffix(st.Val.Type().String(), "persistConn") {
+				return true
+			}
+		}
+		if r, ok := x.(*ssa.Return); ok && len(r.Results) > 0 && nilConst(r.Results[0]) {
+			return true
+		}
+		return false
+	}
+	isRet := func(x ssa.Instruction) bool { _, ok := x.(*ssa.Return); return ok }
+	isSource := func(x ssa.Instruction) bool {
+		return isCallTo(x, "(*Transport).newPersistConn") || isCallTo(x, "(*connQueue).Dequeue")
+	}
+	sc := siteCounter{}
+	for _, d := range callsIn(gc, "(*Transport).newPersistConn") {
+		call := d.(*ssa.Call)
+		okEdges, n := p.guardEdges(gc, matchErrOf(p, call))
+		errEdges, _ := p.guardEdges(gc, negate(matchErrOf(p, call)))
+		if n == 0 {
+			c.Ob(rule, sc.key(gc, "dial error tested"), p.InstrPos(call), false, "the error of this dial is never tested")
+			continue
+		}
+		for e := range errEdges {
+			_, tr, found := p.reachFromBlock(gc, e.to, isRet, isNilPc, nil)
+			c.Ob(rule, sc.key(gc, "failed dial returns no connection"), p.InstrPos(e.to.Instrs[0]), !found, ifs(found, "on the edge on which the dial failed getConn can return without clearing the connection result ("+p.lineTrail(tr)+"): a nil / half-made connection is handed to the caller with a nil error"))
+		}
+		for e := range okEdges {
+			_, tr, found := p.reachFromBlock(gc, e.to, isNilPc, isSource, nil)
+			c.Ob(rule, sc.key(gc, "successful dial is handed out"), p.InstrPos(e.to.Instrs[0]), !found, ifs(found, "on the edge on which the dial succeeded getConn returns nil ("+p.lineTrail(tr)+"): the fresh connection leaks and the caller dereferences nil"))
+		}
+	}
+}
+
+// ruleDrainLoops (C15): the counted loops that visit every element of a pool container start
+// at the first element, and the drain loop of Transport.Close is not skipped for a non-empty queue.
+func ruleDrainLoops(c *Check, a *Analysis, rule string) {
+	p := c.P
+	sc := siteCounter{}
+	for _, name := range []string{"(*Transport).run", "(*Transport).CloseIdleConnections", "(*Transport).Close"} {
+		fn := p.Fn(name)
+		if fn == nil {
+			continue
+		}
+		eachInstr(fn, func(in ssa.Instruction) {
+			b, ok := in.(*ssa.BinOp)
+			if !ok || b.Op != token.LSS {
+				return
+			}
+			phi, ok := b.X.(*ssa.Phi)
+			if !ok {
+				return
+			}
+			// bound: len(cs.Conns) or cq.Length(), possibly through a φ (length--)
+			isBound := false
+			var walk func(v ssa.Value, d int)
+			walk = func(v ssa.Value, d int) {
+				if d == 0 {
+					return
+				}
+				switch x := v.(type) {
+				case *ssa.Phi:
+					for _, e := range x.Edges {
+						walk(e, d-1)
+					}
+				case *ssa.BinOp:
+					walk(x.X, d-1)
+				case *ssa.Call:
+					n := calleeName(x)
+					if n == "(*connQueue).Length" || (n == "builtin len" && isLoadOf(p.canon(x.Call.Args[0]), "conns", "Conns")) {
+						isBound = true
+					}
+				}
+			}
+			walk(b.Y, 6)
+			if !isBound {
+				return
+			}
+			for _, e := range phi.Edges {
+				if k, isK := constInt(e); isK {
+					c.Ob(rule, sc.key(fn, "pool loop starts at element 0"), p.InstrPos(in), k == 0, ifs(k != 0, fmt.Sprintf("the loop over a pool container starts at index %d: the first connection is never examined / closed", k)))
+				}
+			}
+		})
+	}
+	if cl := p.Fn("(*Transport).Close"); cl != nil {
+		for _, dq := range callsIn(cl, "(*connQueue).Dequeue") {
+			odd := false
+			skipped, _ := p.guardedBy(dq.(ssa.Instruction), func(cond ssa.Value) (bool, bool) {
+				// recognises "the queue is known empty" and the edge on which it holds
+				b, ok := cond.(*ssa.BinOp)
+				if !ok {
+					return false, false
+				}
+				cc, isC := p.canon(b.X).(*ssa.Call)
+				k, isK := constInt(b.Y)
+				if !isC || !isK || calleeName(cc) != "(*connQueue).Length" {
+					return false, false
+				}
+				switch {
+				case b.Op == token.GTR && k == 0, b.Op == token.NEQ && k == 0, b.Op == token.GEQ && k == 1:
+					return true, false
+				case b.Op == token.LEQ && k == 0, b.Op == token.EQL && k == 0, b.Op == token.LSS && k == 1, b.Op == token.LSS && k == 0:
+					return true, true
+				case b.Op == token.GEQ && k == 0:
+					return false, false // always true: says nothing
+				}
+				odd = true // a threshold other than empty / non-empty
+				return false, false
+			})
+			skipped = skipped || odd
+			c.Ob(rule, sc.key(cl, "drain loop runs for every non-empty idle queue"), p.InstrPos(dq), !skipped, ifs(skipped, "Transport.Close dequeues and closes parked connections only under a test that excludes some non-empty queue: those connections stay open"))
+		}
 	}
 }
